@@ -10,15 +10,15 @@ import gen_C05
 import linsys_common as lc
 from linsys_common import CQ, cq_matrix, cq_op, cq_solve, cq_mul, coq_check_solve, TCODE
 
-AUTO_HEADER = '''From Coq Require Import ZArith List Bool.
-From Pymoto Require Import Base.Num Model.AutoSolver.
-Import ListNotations.
-Definition o (z : Z) : option bool := if (z =? 0)%Z then Some false else if (z =? 1)%Z then Some true else None.
-'''
 CLS_HEADER = '''From Coq Require Import ZArith QArith List Bool.
 From Pymoto Require Import Base.Num Base.CQMat Model.AutoSolver Model.MatrixChecks.
 Import ListNotations.
 Open Scope Q_scope.
+'''
+MG_HEADER = '''From Coq Require Import ZArith List Bool.
+From Pymoto Require Import Base.Num Model.Grid Model.MGInterp.
+Import ListNotations.
+Open Scope Z_scope.
 '''
 ERR_HEADER = '''From Coq Require Import ZArith List Bool.
 From Pymoto Require Import Base.Num.
@@ -361,6 +361,16 @@ def run(ctx):
                     'premises of the theorems, validated on every factorisation the harness creates (oracle_validation)',
                     'exact rational reference solutions are computed in Python (fractions) and CHECKED inside Coq (op_t(A) X = B exactly)',
                     'scipy DIA semantics (Model/MatrixChecks.v dia_dense) is checked inside Coq for every DIA container created']
+    # at most 3 reports per (kind, call site, predicate, input class): keeps the list of violations diverse
+    raw_violation, seen_v = ctx.violation, {}
+
+    def limited(kind, call_site, predicate, input_class, *a, **kw):
+        key = (kind, call_site, predicate, input_class)
+        seen_v[key] = seen_v.get(key, 0) + 1
+        if seen_v[key] > 3:
+            return False
+        return raw_violation(kind, call_site, predicate, input_class, *a, **kw)
+    ctx.violation = limited
     vlib.audit(ctx)
     if not vlib.ensure_static(ctx, ['theories/Props/C05.vo', 'theories/Props/C05b.vo']):
         return
@@ -369,6 +379,9 @@ def run(ctx):
     vlib.check_props(ctx, 'theories/Props/C05b.v')
 
     rng = ctx.rng
+    import time
+    tm = {'static+translate+props': round(time.time() - ctx.t0, 1)}
+    t_ = time.time()
     from pymoto.solvers import auto_determine_solver
     from pymoto.solvers import matrix_is_sparse, matrix_is_diagonal, matrix_is_symmetric, matrix_is_hermitian, matrix_is_complex
     checks, labels, meta = [], [], []
@@ -377,12 +390,17 @@ def run(ctx):
     err_checks, err_labels = [], []
     oracle_fail = []
     nauto = 0
+    inv_cache = {}
 
     def add_solve_case(label, A_exact, t, b, x, Ad, solver_label, cls, replay):
         """x: implementation's answer (numpy).  Adds the in-Coq check and runs the implementation-side oracle."""
         B = cq_matrix(b)
-        X = cq_solve(cq_op(A_exact, t), B)
-        assert X is not None
+        # exact solution through the exact inverse (computed once per matrix); Coq re-checks op_t(A) X = B exactly
+        kinv = id(A_exact)
+        if inv_cache.get('key') != kinv:
+            inv_cache['key'], inv_cache['inv'] = kinv, lc.cq_inverse(A_exact)
+            assert inv_cache['inv'] is not None
+        X = cq_mul(cq_op(inv_cache['inv'], t), B)
         xs = np.asarray(x)
         shape_ok = xs.shape == np.asarray(b).shape
         want_c = np.iscomplexobj(Ad) or np.iscomplexobj(b)
@@ -471,9 +489,10 @@ def run(ctx):
         ctx.count(f'container:{stor.split("[")[0]}')
         lab = dict(A=A.tolist().__repr__(), storage=stor, cls=cls, offsets=[int(o) for o in As.offsets] if hasattr(As, 'offsets') else None)
         try:
-            obs = [bool(matrix_is_sparse(As)), bool(matrix_is_diagonal(As)), bool(matrix_is_symmetric(As)) if square else None,
-                   bool(matrix_is_hermitian(As)) if square else None, bool(matrix_is_complex(As)),
-                   bool(np.all(As.diagonal() > 0)), bool(np.all(As.diagonal() < 0))]
+            # (the decision procedure sends non-square matrices to QR before it evaluates any predicate)
+            obs = [bool(matrix_is_sparse(As)), bool(matrix_is_diagonal(As)), bool(matrix_is_symmetric(As)),
+                   bool(matrix_is_hermitian(As)), bool(matrix_is_complex(As)),
+                   bool(np.all(As.diagonal() > 0)), bool(np.all(As.diagonal() < 0))] if square else None
         except Exception as e:
             ctx.evaluations += 1
             ctx.violation('impl-violates', 'matrix_checks', 'the predicates evaluate on every container', f'{cls} matrix', dict(lab, error=repr(e)))
@@ -515,7 +534,7 @@ def run(ctx):
             avails = list(itertools.product((False, True), repeat=3)) if sparse else [(False, False, False), (True, True, True)]
             if not full_rows:
                 ovs = ovs[:3] + [ovs[5]]
-                avails = [(False, False, False), (True, True, True)] if not sparse else [(False, False, False), (False, True, True), (True, True, True)]
+                avails = [(False, False, False), (True, True, True)]
         else:
             ovs, avails = [dict()], [(False, False, False)]
         rows, rlabels = [], []
@@ -578,9 +597,11 @@ def run(ctx):
                   'array': SPARSE_FORMATS[(occ // 3 + k) % 7] + '_array'}.get(s, s) for s in sched]
         if n % 2 == 0 and 'bsr' in sched and occ % 2:
             sched[sched.index('bsr')] = 'bsr2'
-        for spec in sched:
+        for si, spec in enumerate(sched):
             As = storage(A, spec)
-            solve_block(cls, A, A_exact, name, spec, As, solver_menu(pym, cls, cplx, spec != 'dense'), std_kinds)
+            # dense and the first sparse container: a vector and a block; the further containers: one of them
+            solve_block(cls, A, A_exact, name, spec, As, solver_menu(pym, cls, cplx, spec != 'dense'),
+                        std_kinds if si < 2 else (lambda sp, cx: [rng.choice(std_kinds(sp, cx))]))
         # every container: predicates and decision table
         specs = all_specs(A, rng, full=not ctx.quick())
         full_for = {spec_label(sched[0]), spec_label(sched[1])}
@@ -644,10 +665,15 @@ def run(ctx):
         ctx.count('malformed:complex rhs real sparse')
 
     # ---- evaluate inside Coq
+    tm['python: cases'] = round(time.time() - t_, 1)
+    t_ = time.time()
     failing, err = vlib.run_cases(ctx, 'solve', lc.CQ_HEADER, checks, chunk=60)
+    tm['coq: solve'] = round(time.time() - t_, 1)
+    t_ = time.time()
     failing1, err1 = vlib.run_cases(ctx, 'classify', CLS_HEADER, cls_checks, chunk=250)
     failing2, err2 = vlib.run_cases(ctx, 'auto', CLS_HEADER, auto_checks, chunk=250)
     failing3, err3 = vlib.run_cases(ctx, 'err', ERR_HEADER, err_checks, chunk=500)
+    tm['coq: classify+auto+err'] = round(time.time() - t_, 1)
     allerr = '\n'.join(e for e in (err, err1, err2, err3) if e)
     ctx.obligation('correspondence:case files evaluated', 'correspondence', not allerr, allerr)
     if allerr:
@@ -685,7 +711,10 @@ def run(ctx):
     ctx.extra['auto_groups'] = len(auto_checks)
 
     # ---- (iv) CG with every preconditioner: post-condition only
+    t_ = time.time()
     cg_sweep(ctx, pym)
+    tm['python: cg sweep'] = round(time.time() - t_, 1)
+    ctx.extra['seconds'] = tm
 
 
 def load_corpus():
@@ -698,3 +727,333 @@ def load_corpus():
                     j = json.load(f)
                 out += j if isinstance(j, list) else [j]
     return out
+
+
+def load_cg_corpus():
+    p = os.path.join(vlib.ROOT, 'corpus', 'C05', 'cg', 'witnesses.json')
+    if not os.path.exists(p):
+        return []
+    with open(p) as f:
+        return json.load(f)
+
+
+def _cnum(v):
+    return complex(*v) if isinstance(v, list) else v
+
+
+# ----------------------------------------------------------------------------- CG sweep (testing: search_evaluations)
+def multigrid(S, dom, levels, **kw):
+    """GeometricMultigrid on `dom` with `levels` nested multigrid levels (each one on the sub-domain of the previous),
+    built the way examples/topology_optimization/ex_compliance_multigrid.py does; the innermost coarse solver is the
+    automatically determined direct solver"""
+    top = S.GeometricMultigrid(dom, **{k: (v() if callable(v) else v) for k, v in kw.items()})
+    cur = top
+    for _ in range(levels - 1):
+        nxt = S.GeometricMultigrid(cur.sub_domain, **{k: (v() if callable(v) else v) for k, v in kw.items()})
+        cur.inner_level = nxt
+        cur = nxt
+    return top
+
+
+def cg_sweep(ctx, pym):
+    S = pym.solvers
+    rng = ctx.rng
+    tol = 1e-7
+    nrun = 0
+    mg_checks, mg_labels, mg_seen = [], [], set()
+
+    def observe_interp(mg, sizes, ndof, how):
+        """the prolongation R of every nested multigrid level vs Model/MGInterp.v (exact, in Coq)"""
+        nx, ny, nz = sizes
+        while type(mg).__name__ == 'GeometricMultigrid':
+            key = (nx, ny, nz, ndof)
+            R = getattr(mg, 'R', None)
+            if R is not None and key not in mg_seen:
+                mg_seen.add(key)
+                Rc = sps.coo_matrix(R)
+                Rc.sum_duplicates()
+                v8 = np.asarray(Rc.data).real * 8
+                lab = dict(domain=[nx, ny, nz], ndof=ndof, shape=list(Rc.shape), how=how)
+                ctx.case(('mg-interp', key), True, sample=dict(case=f'prolongation of domain {key}'))
+                ctx.count(f'mg-interp:{"2-D" if nz == 0 else "3-D"} {"square/cubic" if nx == ny and nz in (0, nx) else "rectangular"}, ndof={ndof}')
+                ctx.search_evaluations += 1
+                rowsum = np.asarray(abs(Rc).sum(axis=1)).ravel() if Rc.nnz else np.zeros(Rc.shape[0])
+                colmax = np.asarray(abs(Rc).max(axis=0).todense()).ravel() if Rc.nnz else np.zeros(Rc.shape[1])
+                if np.any(np.imag(np.asarray(Rc.data))) or not np.array_equal(v8, np.round(v8)) or not np.allclose(rowsum, 1) or np.any(colmax == 0):
+                    # plain statement on the implementation: weights are multiples of 1/8, rows sum to 1 (constants are
+                    # interpolated exactly), no coarse dof is left out
+                    ctx.violation('impl-violates', 'GeometricMultigrid.setup_interpolation', 'rows of R sum to 1 and every coarse dof has an entry',
+                                  f'{"2-D" if nz == 0 else "3-D"} domain', lab,
+                                  got=dict(empty_columns=np.nonzero(colmax == 0)[0].tolist()[:20], bad_rows=np.nonzero(~np.isclose(rowsum, 1))[0].tolist()[:20]))
+                keys = Rc.row.astype(np.int64) * Rc.shape[1] + Rc.col.astype(np.int64)
+                o = np.argsort(keys, kind='stable')
+                obs = '[' + '; '.join(f'({int(keys[t])}, {int(round(v8[t]))})' for t in o) + ']'
+                shape_ok = Rc.shape == (ndof * (nx + 1) * (ny + 1) * (nz + 1), ndof * (nx // 2 + 1) * (ny // 2 + 1) * (nz // 2 + 1))
+                mg_checks.append(f'interp_matches {{| nelx := {nx}; nely := {ny}; nelz := {nz} |}} {ndof} {obs} && {vlib.blit(shape_ok)}')
+                mg_labels.append(lab)
+            mg = getattr(mg, 'inner_level', None)
+            nx, ny, nz = nx // 2, ny // 2, nz // 2
+
+    def container(A, kind):
+        if kind == 'dense':
+            return A
+        return getattr(sps, kind if '_' in kind else kind + '_matrix')(A)
+
+    def make(label, cls, A, pc, replay, **kw):
+        """CG(A, preconditioner): set-up failures are failures of the property (a solver that cannot be built cannot solve)"""
+        ctx.search_evaluations += 1
+        try:
+            return S.CG(A, preconditioner=pc(), tol=tol, **kw)
+        except Exception as e:
+            ctx.violation('impl-violates', label.split('+')[0].split('[')[0] + '.update', 'preconditioner set-up succeeds for a Hermitian positive definite matrix',
+                          cls, dict(replay, error=repr(e)))
+            return None
+
+    def check(label, A, solver, b, t, x0, cls, extra=None, narrow=False):
+        nonlocal nrun
+        nrun += 1
+        ctx.search_evaluations += 1
+        ctx.count('cg:' + label)
+        ctx.count('cg:trans:' + t)
+        ctx.count('cg:x0' if x0 is not None else 'cg:no x0')
+        replay = dict(solver='CG', preconditioner=label, A=(A.toarray() if sps.issparse(A) else A).tolist().__repr__()[:6000],
+                      b=b.tolist().__repr__()[:3000], trans=t, x0=None if x0 is None else x0.tolist().__repr__()[:3000])
+        if extra:
+            replay = dict(extra, preconditioner=label, b=b.tolist().__repr__()[:3000], trans=t, x0=replay['x0'])
+        with warnings.catch_warnings(record=True) as w:
+            warnings.simplefilter('always')
+            try:
+                x = solver.solve(b.copy(), x0=None if x0 is None else x0.copy(), trans=t)
+            except Exception as e:
+                if narrow and type(e).__name__ == 'UFuncTypeError':
+                    # NEW_C05_cg_x0_narrower_dtype: x keeps the dtype of the guess, `x += p @ alpha` cannot cast
+                    ctx.violation('impl-violates', 'CG.solve', 'solve accepts an initial guess of narrower dtype than the solution',
+                                  'x0 real/integer, system complex/float', dict(replay, error=repr(e)))
+                elif type(A).__name__.startswith('dok') and x0 is None and isinstance(e, (IndexError, ValueError)):
+                    # F29 (fixed): np.result_type received the DOK container itself
+                    ctx.violation('impl-violates', 'CG.solve', 'solve returns for a Hermitian positive definite matrix in DOK storage without initial guess',
+                                  'DOK container, x0=None', dict(replay, error=repr(e)))
+                else:
+                    ctx.violation('impl-violates', 'CG.solve', 'solve raises for a Hermitian positive definite matrix', cls, dict(replay, error=repr(e)))
+                return
+        warned = any('Maximum iterations' in str(m.message) for m in w)
+        Ao = opmat(A, t)
+        r = Ao @ (x.reshape(x.shape[0], -1)) - b.reshape(b.shape[0], -1)
+        rel = np.linalg.norm(r, axis=0) / np.linalg.norm(b.reshape(b.shape[0], -1), axis=0)
+        want_c = np.iscomplexobj(Ao) or np.iscomplexobj(b)
+        if x.shape != b.shape or (x.dtype.kind == 'c') != want_c:
+            ctx.violation('impl-violates', 'CG.solve', 'x has the shape and dtype class of b', cls, replay, expected=str(b.shape), got=str(x.shape) + str(x.dtype))
+        elif warned or not np.all(rel <= 10 * tol):
+            ctx.violation('impl-violates', 'CG.solve', '||op_trans(A) x - b|| <= 10 tol ||b|| without max-iteration warning', cls,
+                          replay, expected=f'<= {10 * tol}', got=rel.tolist().__repr__())
+
+    def rhs(n, kind, cplx):
+        # CG's exit test is relative to ||b|| per column: a zero column is outside its domain (tval = inf/nan)
+        while True:
+            b = lc.gen_rhs(rng, n, kind, cplx)
+            if np.all(np.any(b.reshape(n, -1) != 0, axis=0)):
+                return b
+
+    def guess(b, cplx):
+        n = b.shape[0]
+        return (lc.gen_rhs(rng, n, 'vec', cplx) if b.ndim == 1 else
+                np.stack([lc.gen_rhs(rng, n, 'vec', cplx) for _ in range(b.shape[1])], axis=1))
+
+    def pcs_for(stor):
+        pcs = [('Preconditioner', lambda: S.Preconditioner()), ('DampedJacobi', lambda: S.DampedJacobi(w=rng.choice([0.5, 1.0])))]
+        if stor != 'dense':
+            pcs += [('SOR', lambda: S.SOR(w=rng.choice([0.8, 1.0, 1.3]))), ('ILU', lambda: S.ILU())]
+        return pcs
+    PCS = {'Preconditioner': lambda: S.Preconditioner(), 'DampedJacobi': lambda: S.DampedJacobi(), 'SOR': lambda: S.SOR(), 'ILU': lambda: S.ILU()}
+
+    # ---- corpus: witnesses of repaired defects and deliberately chosen dependent blocks, every run
+    for c in load_cg_corpus():
+        A = np.array([[_cnum(v) for v in row] for row in c['A']])
+        A = A.astype(complex) if np.iscomplexobj(A) else A.astype(float)
+        b = np.array([[_cnum(v) for v in row] if isinstance(row, list) else row for row in c['b']])
+        b = b.astype(complex) if (np.iscomplexobj(b) or c.get('cdep') or c.get('idup')) else b.astype(float)
+        if c.get('cdep'):
+            b[:, 2] = (1 + 2j) * b[:, 0] - 1j * b[:, 1]
+        if c.get('idup'):
+            b[:, 1] = 1j * b[:, 0]
+        for cont in c['containers']:
+            As = container(A, cont)
+            for pl in c['preconditioners']:
+                if cont == 'dense' and pl in ('SOR', 'ILU'):
+                    continue
+                cls = f'corpus {c["name"]}, {cont}'
+                solver = make(pl, cls, As, PCS[pl], dict(A=A.tolist().__repr__(), container=cont, preconditioner=pl))
+                if solver is None:
+                    continue
+                for t in 'NTH':
+                    check(pl, As, solver, b, t, None, cls)
+
+    # ---- an initial guess of narrower dtype than the solution (real guess for a complex system, integer guess)
+    Ac_ = np.array([[6, 1 + 1j, 0], [1 - 1j, 7, 2 - 1j], [0, 2 + 1j, 8]])
+    Ar_ = np.array([[4., 1, 0], [1, 5, 2], [0, 2, 6]])
+    for nm_, A, b, x0 in (('real x0, complex matrix, real rhs', Ac_, np.array([1., 2, 3]), np.ones(3)),
+                          ('real x0, complex matrix, complex block', Ac_, np.array([[1j, 1], [2, 0], [3, -1j]]), np.ones((3, 2))),
+                          ('real x0, real matrix, complex rhs', Ar_, np.array([1j, 2, 3]), np.ones(3)),
+                          ('integer x0, real matrix, real rhs', Ar_, np.array([1., 2, 3]), np.ones(3, dtype=int))):
+        for cont in ('dense', 'csc'):
+            if cont == 'csc' and not np.iscomplexobj(A) and np.iscomplexobj(b):
+                continue
+            As = container(A, cont)
+            for pl in ('Preconditioner', 'DampedJacobi') + (('SOR',) if cont == 'csc' else ()):
+                solver = make(pl, nm_, As, PCS[pl], dict(A=A.tolist().__repr__(), container=cont, preconditioner=pl))
+                if solver is None:
+                    continue
+                for t in 'NTH':
+                    check(pl, As, solver, b, t, x0, 'narrow x0: ' + nm_, narrow=True)
+
+    # ---- random HPD / SPD matrices: dense + two sparse containers (every container on every run) x preconditioners
+    nm = 10 if ctx.quick() else 60
+    for k in range(nm):
+        cplx = k % 2 == 1
+        n = rng.choice([2, 3, 4, 5, 6, 8, 12])
+        A = lc.gen_matrix(rng, 'hpd' if cplx else 'spd', n, cplx)
+        stors = ['dense', SPARSE_FORMATS[k % 7], SPARSE_FORMATS[(k + 3) % 7]]
+        if k % 5 == 4:
+            stors.append(SPARSE_FORMATS[(k + 5) % 7] + '_array')
+        for stor in stors:
+            As = container(A, stor)
+            ctx.count('cg:container:' + stor)
+            for pl, pc in pcs_for(stor):
+                cls = ('complex ' if cplx else 'real ') + 'HPD matrix, ' + stor
+                solver = make(pl, cls, As, pc, dict(A=A.tolist().__repr__(), container=stor, preconditioner=pl),
+                              maxit=1000, restart=rng.choice([1, 3, 50]))
+                if solver is None:
+                    continue
+                for t in 'NTH':
+                    kinds = ['vec', 'col', 'blk', 'dup', 'wide']
+                    # a real matrix takes complex right-hand sides too (x gets the result type), unless the preconditioner is
+                    # built on a real SuperLU factorisation (refuses complex data: malformed stream)
+                    bc_ = cplx or (pl in ('Preconditioner', 'DampedJacobi') and rng.random() < 0.3)
+                    if bc_:
+                        kinds += ['cdep', 'idup']
+                    kind = rng.choice(kinds)
+                    ctx.count('cg:rhs:' + kind)
+                    b = rhs(n, kind, bc_)
+                    x0 = guess(b, bc_) if rng.random() < 0.5 else None
+                    check(pl, As, solver, b, t, x0, cls)
+    # ---- deliberately chosen: columns that depend on each other through NON-REAL coefficients, every preconditioner,
+    #      with and without initial guess, every trans, every run
+    for cplx in (True, False):
+        n = 6
+        A = lc.gen_matrix(rng, 'hpd' if cplx else 'spd', n, cplx)
+        for si, stor in enumerate(('dense', 'csc', SPARSE_FORMATS[2 + (ctx.seed + (1 if cplx else 4)) % 5])):
+            As = container(A, stor)
+            for pl, pc in pcs_for(stor):
+                if not cplx and pl in ('SOR', 'ILU'):
+                    continue    # real SuperLU factors refuse complex right-hand sides
+                cls = ('complex ' if cplx else 'real ') + 'HPD matrix, ' + stor + ', non-real dependency between columns'
+                solver = make(pl, cls, As, pc, dict(A=A.tolist().__repr__(), container=stor, preconditioner=pl), maxit=1000)
+                if solver is None:
+                    continue
+                for kind in ('cdep', 'idup'):
+                    for t in 'NTH':
+                        b = rhs(n, kind, True)
+                        ctx.count('cg:rhs:' + kind)
+                        check(pl, As, solver, b, t, guess(b, True) if (si + len(kind) + 'NTH'.index(t)) % 2 else None, cls)
+
+    # ---- FE matrices on rectangular domains (nelx != nely != nelz): geometric multigrid with nested levels, and the
+    #      one-level preconditioners; every sparse container
+    fe = [((4, 4, 0), 'stiff', 1), ((6, 4, 0), 'poisson', 1), ((4, 6, 0), 'stiff', 1), ((8, 4, 0), 'stiff', 2), ((4, 8, 0), 'poisson', 2),
+          ((16, 8, 0), 'poisson', 3), ((4, 12, 0), 'stiff', 2),
+          ((2, 2, 2), 'stiff', 1), ((4, 2, 2), 'poisson', 1), ((2, 4, 6), 'poisson', 1), ((6, 2, 4), 'stiff', 1), ((8, 4, 4), 'poisson', 2),
+          ((4, 8, 4), 'poisson', 2)]
+    if not ctx.quick():
+        fe += [((8, 8, 0), 'stiff', 2), ((10, 6, 0), 'poisson', 1), ((12, 4, 0), 'poisson', 2), ((8, 16, 0), 'stiff', 3), ((24, 8, 0), 'poisson', 3),
+               ((4, 4, 4), 'stiff', 2), ((4, 4, 2), 'poisson', 1), ((4, 8, 12), 'poisson', 2), ((4, 8, 4), 'stiff', 2), ((2, 6, 4), 'stiff', 1),
+               ((8, 4, 12), 'poisson', 2)]
+    for fi, ((nx, ny, nz), kind, levels) in enumerate(fe):
+        dom = pym.DomainDefinition(nx, ny, nz)
+        ndof = 1 if kind == 'poisson' else dom.dim
+        nodes = dom.nodes[0, ...].flatten()
+        bc = np.concatenate([nodes * ndof + d for d in range(ndof)])
+        xval = np.array([0.2 + 0.8 * rng.random() for _ in range(dom.nel)])
+        sx = pym.Signal('x', xval)
+        m = (pym.AssemblePoisson if kind == 'poisson' else pym.AssembleStiffness)(sx, domain=dom, bc=bc)
+        m.response()
+        K0 = m.sig_out[0].state
+        n = K0.shape[0]
+        fmt = SPARSE_FORMATS[(fi + ctx.seed) % 7]
+        kc = fi % 4 == 1            # complex dtype (real values): complex right-hand sides pass through SuperLU-based parts
+        K0 = K0.astype(complex) if kc else K0
+        K = K0 if fi % 3 == 0 else container(K0, fmt)
+        ctx.count('cg:fe-container:' + type(K).__name__)
+        ctx.count(f'cg:fe-domain:{"square/cubic" if (nx == ny and (nz in (0, nx))) else "rectangular"} {dom.dim}-D, {levels} multigrid level(s)')
+        base = dict(domain=[nx, ny, nz], kind=kind, levels=levels, container=type(K).__name__, complex_dtype=kc, x=xval.tolist().__repr__()[:4000])
+        cls = f'FE {kind} matrix {dom.dim}-D'
+
+        def fe_rhs():
+            kb = rng.choice([1, 2, 3])
+            cb = kc and rng.random() < 0.7
+            b = np.array([[complex(rng.randint(-5, 5), rng.randint(-5, 5)) if cb else rng.randint(-5, 5) for _ in range(kb)] for _ in range(n)],
+                         dtype=complex if cb else float)
+            b[bc, :] = 0
+            if not np.all(np.any(b, axis=0)):
+                b[-1, :] = 1
+            if kb == 3 and cb:
+                b[:, 2] = (1 + 2j) * b[:, 0] - 1j * b[:, 1]      # non-real dependency
+            if kb == 1 and rng.random() < 0.5:
+                b = b[:, 0].copy()
+            return b
+        for cyc in ('V', 'W'):
+            for pl, kw in ((f'GeometricMultigrid[{levels}]', dict(cycle=cyc)),
+                           (f'GeometricMultigrid[{levels}]+SOR', dict(cycle=cyc, smoother=lambda: S.SOR(w=1.0), smooth_steps=2))):
+                built = []
+
+                def build():
+                    built.append(multigrid(S, dom, levels, **kw))
+                    return built[0]
+                solver = make(pl, cls, K, build, dict(base, preconditioner=pl, cycle=cyc), maxit=1000)
+                if built:
+                    observe_interp(built[0], (nx, ny, nz), ndof, 'CG set-up on the FE matrix')
+                if solver is None:
+                    continue
+                for t in 'NTH':
+                    b = fe_rhs()
+                    x0 = None if rng.random() < 0.5 else np.array(np.random.default_rng(ctx.seed + nrun).standard_normal(b.shape))
+                    if x0 is not None and kc:
+                        x0 = x0 + 0j       # guess of the result type (narrower guesses: see the dedicated probe above)
+                    check(pl, K, solver, b, t, x0, cls, extra=dict(base, cycle=cyc))
+        # one-level preconditioners on the same rectangular-domain matrix (one trans each, rotating)
+        for pi, (pl, pc) in enumerate((('DampedJacobi', lambda: S.DampedJacobi(w=1.0)), ('SOR', lambda: S.SOR(w=1.2)), ('ILU', lambda: S.ILU()))):
+            if n > 400 and pl == 'DampedJacobi':
+                continue
+            solver = make(pl, cls, K, pc, dict(base, preconditioner=pl), maxit=3000)
+            if solver is None:
+                continue
+            b = fe_rhs()
+            check(pl, K, solver, b, 'NTH'[(pi + fi) % 3], None, cls, extra=base)
+    # ---- further domains, prolongation only (set-up through the public constructor on an identity matrix)
+    more = [((2, 6, 0), 1), ((10, 4, 0), 2), ((4, 10, 0), 1), ((2, 2, 4), 1), ((4, 2, 6), 2), ((6, 4, 2), 1), ((2, 6, 4), 3), ((12, 2, 0), 3)]
+    if not ctx.quick():
+        more += [((2 * rng.randint(1, 8), 2 * rng.randint(1, 8), 0), rng.randint(1, 3)) for _ in range(12)]
+        more += [((2 * rng.randint(1, 4), 2 * rng.randint(1, 4), 2 * rng.randint(1, 4)), rng.randint(1, 3)) for _ in range(10)]
+    for (nx, ny, nz), ndof in more:
+        dom = pym.DomainDefinition(nx, ny, nz)
+        mg = None
+        ctx.search_evaluations += 1
+        try:
+            mg = S.GeometricMultigrid(dom)
+            mg.update(sps.identity(ndof * dom.nnodes, format='csc'))
+        except Exception as e:
+            ctx.violation('impl-violates', 'GeometricMultigrid.update', 'preconditioner set-up succeeds for a Hermitian positive definite matrix',
+                          f'identity matrix on a {dom.dim}-D domain', dict(domain=[nx, ny, nz], ndof=ndof, error=repr(e)))
+        if mg is not None:
+            observe_interp(mg, (nx, ny, nz), ndof, 'update(identity)')
+    failing, err = vlib.run_cases(ctx, 'mginterp', MG_HEADER, mg_checks, chunk=6)
+    ctx.obligation('correspondence:multigrid prolongation case files evaluated', 'correspondence', not err, err)
+    if err:
+        ctx.violation('correspondence', 'GeometricMultigrid.setup_interpolation', 'case files compile', 'harness', dict(error=err[-3000:]), theorem='cases')
+    for idx in failing[:20]:
+        ctx.violation('correspondence', 'GeometricMultigrid.setup_interpolation', 'R == Model/MGInterp.v interp_triples (exact)', 'prolongation',
+                      mg_labels[idx], note='Coq model: ' + mg_checks[idx][:300])
+    ctx.extra['mg_interp_cases'] = len(mg_checks)
+    ctx.extra['cg_runs'] = nrun
+
+
+if __name__ == '__main__':
+    vlib.main(run, 'C05')
